@@ -252,6 +252,10 @@ def oracle(case, res, obs):
         else:
             cur.append(item)
     tail = cur
+    for t, offered in enumerate(case["producers"]):
+        mine = [item for item, tid in puts if tid == t and item != "stop"]
+        if mine != offered[: len(mine)] or (len(mine) != len(offered) and t not in obs["errors"]):
+            bad.append("producer %d offered %s but the queue received %s from it: each offer must become one put, in the order offered" % (t, offered, mine))
     if len(segs) != case["cycles"]:
         bad.append("%d STOP markers were put in %d cycles" % (len(segs), case["cycles"]))
     stopped_at = {}
@@ -455,10 +459,12 @@ def run(ctx):
     model_in, model_ctx = [], []
     nviol = 0
     call_lines = set(sk["lines"].get("call", []))
+    done = nsched = 0
     for ci, cfg in enumerate(cfgs):
         left = deadline - time.time()
         if left <= 0 or nviol >= 3:
             break
+        done += 1
         per_end = time.time() + max(1.0, left / (len(cfgs) - ci) * 2)
         case0 = dict(producers=cfg["producers"], cycles=cfg["cycles"], fails=cfg["fails"], falsy=cfg.get("falsy") or {}, redundant=cfg.get("redundant") or [])
         nprod = len(cfg["producers"])
@@ -477,6 +483,7 @@ def run(ctx):
                 yield "random", run_real(S, case0, sched.RandomChooser(srng, stay=srng.choice([0.0, 0.5, 0.8, 0.9])))
 
         for how, (res, obs) in gen():
+            nsched += 1
             case = dict(case0, schedule=res.schedule)
             fs = first_start_step(res, sk, nprod)
             late_put = fs is not None and any(s.tid < nprod and s.line in call_lines for s in res.trace[fs:])
@@ -492,6 +499,11 @@ def run(ctx):
             model_ctx.append((case, res, obs))
             if bad:
                 break
+    ctx.count("explored:configurations", n=done)
+    ctx.count("explored:schedules", n=nsched)
+    if (done < 16 or nsched < 1000) and not nviol:
+        raise InfraError("time budget exhausted before the minimum exploration: %d of at least 16 configurations, %d of at least 1000 schedules"
+                         % (done, nsched))
     # bursts: a large backlog builds up before the writer thread gets to run (the queue is unbounded: nothing may be
     # refused, dropped or reordered however many messages are pending); oracle only, the model is not run on these
     for n in ctx.budget([1500, 12000], [1500, 12000, 50000]):
